@@ -70,7 +70,51 @@ pub const FAMILIES: &[(&[M], &[M])] = &[
     (&[M::Arc2Prov], &[M::Arc2Req]),
 ];
 
+/// Deep recursion through the mock: default body -> required method -> answer function -> default
+/// body ... (C15), real function -> mock -> real function ... (C16), hundreds of levels.
+fn gen_deep(prop: &str, base_seed: u64, batch: &str, run: u64, rng: &mut Rng) -> Scenario {
+    let wild = |m: M, resp: Resp| ClauseSpec {
+        m,
+        form: Form::EachCall,
+        patterns: vec![PatternSpec { pred: if m.info().two_args { 0xffff } else { 0xf }, has_matcher: true, macro_form: false, segs: vec![Seg { resp, quant: Quant::Unq }] }],
+    };
+    let mut cfg = Config { nest_seed: rng.next() | 1, ..Default::default() };
+    let first = if prop == "C15" {
+        // b0 (provided) calls b2 (required); b2's answer calls b0 again
+        cfg.clauses.push(wild(M::B2, Resp::AnswersArc(Prog { calls: vec![(M::B0, 1, 0)] })));
+        if rng.chance(1, 2) {
+            cfg.clauses.push(wild(M::B0, Resp::DefaultImpl));
+        }
+        cfg.default_progs.push((M::B0, Prog { calls: vec![(M::B2, 1, 1)] }));
+        cfg.partial = rng.chance(1, 3);
+        M::B0
+    } else {
+        // a0's real function calls a0 through the mock
+        cfg.partial = rng.chance(1, 2);
+        if !cfg.partial || rng.chance(1, 2) {
+            cfg.clauses.push(wild(M::A0, Resp::Unmocked));
+        }
+        cfg.real_progs.push((M::A0, Prog { calls: vec![(M::A0, 1, 0)] }));
+        M::A0
+    };
+    let depth = *rng.pick(&[40i64, 130, 200, 257, 300]);
+    Scenario {
+        prop: prop.into(),
+        base_seed,
+        run,
+        batch: batch.into(),
+        config: cfg,
+        config2: None,
+        threads: vec![vec![Op::Call { slot: 0, m: first, x: rng.below(4) as u8, y: 0, catch: true, fault: None, keep: false }, Op::Verify { slot: 0 }]],
+        sched: seq_sched(),
+        knobs: vec![("max_depth".into(), depth), ("stack_kb".into(), 65536)],
+    }
+}
+
 pub fn gen_c15(base_seed: u64, batch: &str, run: u64, rng: &mut Rng) -> Scenario {
+    if batch == "fault-free" && (rng.chance(1, 60) || std::env::var("SIM_FORCE_DEEP").is_ok()) {
+        return gen_deep("C15", base_seed, batch, run, rng);
+    }
     let race = batch == "helper-race";
     let fam = if race { FAMILIES[0] } else { *rng.pick(FAMILIES) };
     // sometimes two receiver kinds on one instance: the lazily created helper is per instance, not
@@ -243,7 +287,9 @@ pub fn check_c15(scn: &Scenario) -> Checked {
         stats.nontrivial = !delegated.is_empty();
         return Checked { violations, stats, harness_error: None };
     }
-    if !violations.is_empty() || scn.threads.len() != 1 {
+    // (deep-recursion runs are judged call by call only: the harness's own cut-off is counted in
+    // nesting levels of user programs, which a twin without the delegating level reaches one call later)
+    if !violations.is_empty() || scn.threads.len() != 1 || scn.knob("max_depth").is_some() {
         return Checked { violations, stats, harness_error: None };
     }
     // direct-call twin: replace every delegated call by the required-method calls its body made
@@ -394,6 +440,9 @@ pub fn gen_c16(base_seed: u64, batch: &str, run: u64, rng: &mut Rng) -> Scenario
     if batch == "executor" {
         return gen_c16_async(base_seed, batch, run, rng);
     }
+    if batch == "fault-free" && rng.chance(1, 60) {
+        return gen_deep("C16", base_seed, batch, run, rng);
+    }
     let mut co = CfgOpts::default();
     let mut pool = C16_POOL.to_vec();
     rng.shuffle(&mut pool);
@@ -425,6 +474,9 @@ pub fn gen_c16(base_seed: u64, batch: &str, run: u64, rng: &mut Rng) -> Scenario
             let p = rng.pick(&st.flat.patterns).clone();
             let (x, y) = st.args_for(rng, p.uid).unwrap_or((rng.below(4) as u8, rng.below(4) as u8));
             (p.m, x, y)
+        } else if rng.chance(1, 10) {
+            // a method that no clause can mention (its trait is mocked without `api=`)
+            (M::N0, rng.below(4) as u8, 0)
         } else {
             (*rng.pick(&pool), rng.below(4) as u8, rng.below(4) as u8)
         };
@@ -668,7 +720,7 @@ pub fn check_c16(scn: &Scenario) -> Checked {
         }
         return Checked { violations, stats, harness_error: None };
     }
-    if !violations.is_empty() || resolved.is_empty() {
+    if !violations.is_empty() || resolved.is_empty() || scn.knob("max_depth").is_some() {
         return Checked { violations, stats, harness_error: None };
     }
     // direct-call twin: real_fn(&twin, args) instead of the call that resolved to it
